@@ -67,8 +67,9 @@ def check_coherent(g, m, universe):
 def expand(arg):
     """expand one state: apply every op of the alphabet to a fresh replay of the history"""
     kind, hist, mode, ordered, tier = arg["kind"], arg["hist"], arg["mode"], arg["ordered"], arg["tier"]
-    alpha = OPS.alphabet(kind, tier)
-    universe = OPS.config(kind, tier)["ids"] + [5, OPS.ABSENT]
+    idset = arg.get("idset", "std")
+    alpha = OPS.alphabet(kind, tier, idset)
+    universe = OPS.universe(kind, tier, idset)
     res = {"evals": 0, "trans": 0, "viol": [], "succ": [], "outcomes": {}, "samples": []}
     oc = res["outcomes"]
     P = "C09" if mode == "C09" else "C19"
@@ -76,7 +77,7 @@ def expand(arg):
     def V(op, shape, clause, ctype, what, detail=None, at=None):
         sig = f"{P}/{SHORT[kind]}/{op[0]}/{shape}/{ctype}/{clause}"
         res["viol"].append({"sig": sig, "input": None, "what": what,
-                            "item": {"kind": kind, "hist": hist if at is None else at, "op": op, "mode": mode, "tier": tier},
+                            "item": {"kind": kind, "hist": hist if at is None else at, "op": op, "mode": mode, "tier": tier, "idset": idset},
                             "detail": detail})
 
     only = arg.get("only_op")
@@ -169,7 +170,16 @@ def expand(arg):
     return res
 
 
-def roots(kind):
+def roots(kind, idset="std"):
+    """non-initial start states (name, history), written with the identifiers of `idset`"""
+    mp = OPS.IDSETS[idset]
+    out = _roots_std(kind)
+    if mp is None:
+        return out
+    return [(name, [OPS.rename_op(o, mp) for o in hist]) for name, hist in out]
+
+
+def _roots_std(kind):
     """non-initial start states (name, history): the BFS from the empty graph needs 5+ calls before the first descriptor
     can exist, so the states around descriptors and stereo changes are explored from these roots as well"""
     cfg = OPS.config(kind, "quick")
@@ -196,13 +206,13 @@ def roots(kind):
 D3 = OPS.D("PlanarBond", (3, None, 0, 1, 2, None), 0)
 
 
-def explore(ctx, kind, mode, depth, ordered, tier, max_states=None, label="", root=None):
+def explore(ctx, kind, mode, depth, ordered, tier, max_states=None, label="", root=None, idset="std"):
     """level-synchronous BFS from the empty graph (or from the state reached by the history `root`); returns stats dict"""
     root = list(root or [])
     seen = {canon(snap(replay_history(kind, root)[0]), ordered)}
     frontier = [root]
     stats = {"kind": kind, "pass": "B-ordered" if ordered else "A-unordered", "levels": [], "fixpoint": False,
-             "depth_bound": depth, "root": root}
+             "depth_bound": depth, "root": root, "identifiers": idset}
     d = 0
     sample_hist = None
     while frontier and d < depth:
@@ -210,7 +220,7 @@ def explore(ctx, kind, mode, depth, ordered, tier, max_states=None, label="", ro
             ctx.capped = True
             ctx.cap_note.append(f"{label}: budget hit before expanding depth {d + 1}")
             break
-        args = [{"kind": kind, "hist": h, "mode": mode, "ordered": ordered, "tier": tier} for h in frontier]
+        args = [{"kind": kind, "hist": h, "mode": mode, "ordered": ordered, "tier": tier, "idset": idset} for h in frontier]
         before = ctx.items_done
         results = ctx.pmap(expand, args, chunksize=max(1, min(64, len(args) // 64)))
         complete = (ctx.items_done - before) == len(args)
@@ -249,9 +259,10 @@ def deep_walk(arg):
     import math
 
     kind, a, b, L, mode, tier = arg["kind"], arg["a"], arg["b"], arg["len"], arg["mode"], arg["tier"]
-    alpha = OPS.alphabet(kind, tier)
+    idset = arg.get("idset", "std")
+    alpha = OPS.alphabet(kind, tier, idset)
     n = len(alpha)
-    universe = OPS.config(kind, tier)["ids"] + [5, OPS.ABSENT]
+    universe = OPS.universe(kind, tier, idset)
     res = {"evals": 0, "trans": 0, "viol": [], "outcomes": {}, "samples": [], "states": 0}
     P = "C09" if mode == "C09" else "C19"
     g, m = replay_history(kind, [])
@@ -339,7 +350,10 @@ def deep_items(kind, mode, tier):
     n = len(OPS.alphabet(kind, tier))
     strides = [a for a in range(1, 200) if math.gcd(a, n) == 1][: (12 if tier == "quick" else 40)]
     L = 600 if tier == "quick" else 3000
-    return [{"deep": True, "kind": kind, "a": a, "b": (7 * a) % n, "len": L, "mode": mode, "tier": tier} for a in strides]
+    out = [{"deep": True, "kind": kind, "a": a, "b": (7 * a) % n, "len": L, "mode": mode, "tier": tier} for a in strides]
+    # the same walks with hash-colliding identifiers (every third stride)
+    out += [dict(it, idset="colliding") for it in out[::3]]
+    return out
 
 
 def replay_item(item):
@@ -347,4 +361,4 @@ def replay_item(item):
     if item.get("deep"):
         return deep_walk(item)
     return expand({"kind": item["kind"], "hist": item["hist"], "mode": item["mode"], "ordered": False,
-                   "tier": item.get("tier", "quick"), "only_op": item["op"]})
+                   "tier": item.get("tier", "quick"), "only_op": item["op"], "idset": item.get("idset", "std")})
